@@ -163,7 +163,7 @@ def protocol(ctx, rep, P):
                 good = len(dr) == 1
                 if good:
                     dsl = backward_slice(dr[0][0], dr[0][2]["a"][1])
-                    counted = [c for c in dsl["calls"] if not re.search(r"Iterator::try_fold$|Try>::branch$|Iterator::count$|chunks_exact(_mut)?$|make_contiguous$", callee_name(c))]
+                    counted = [c for c in dsl["calls"] if not re.search(r"Iterator::try_fold$|Try>::branch$|Iterator::count$|chunks_exact(_mut)?$|make_contiguous$|ExactSizeIterator::len$", callee_name(c))]
                     good = fr["size"] in dsl["fields"] and any(op.startswith("Mul") for op in dsl["ops"]) and 0 in dsl["consts"] and not counted and \
                         not [op for op in dsl["ops"] if op.replace("WithOverflow", "") not in ("Mul", "Add", "Eq", "Ne")]
                 rep.check(P + ".sib", "%s write: drains exactly block size x encoded blocks from the front" % name, good, loc_of(b))
